@@ -133,8 +133,13 @@ func (p *Processor[K, T]) process(isNext bool) {
 
 // Processing loop.
 func (p *Processor[K, T]) processLoop() {
+	var released bool
 	defer func() {
 		// Release the channel when exiting
+		if released {
+			// Already released while holding the lock (queue was empty)
+			return
+		}
 		<-p.processorRunningCh
 	}()
 
@@ -150,6 +155,13 @@ func (p *Processor[K, T]) processLoop() {
 		// Continue processing items until the queue is empty
 		p.lock.Lock()
 		r, ok = p.queue.Peek()
+		if !ok {
+			// Release the running token before releasing the lock: an Enqueue
+			// that gets the lock after us must find the token free and start a
+			// new loop, or its item would be left queued with no loop serving it.
+			<-p.processorRunningCh
+			released = true
+		}
 		p.lock.Unlock()
 		if !ok {
 			return
